@@ -1,0 +1,293 @@
+//go:build verif
+
+// Contracts for the generated parser package (template parserSrc); keyed by the functions of the expanded package.
+// Comment-only file, compiled only with -tags=verif. See /verif/DESIGN.md sections 3.4, 3.5.
+
+package golang
+
+//@ package parser
+//@
+//@ # ---- table vocabulary ----
+//@ spec act(s int, t int) action = actionTab[s].actions[t]
+//@ spec isShift(a action) bool = typeis(a, shift)
+//@ spec isReduce(a action) bool = typeis(a, reduce)
+//@ spec isAccept(a action) bool = typeis(a, accept)
+//@ spec shiftTo(a action) int = as(a, shift)
+//@ spec redProd(a action) int = as(a, reduce)
+//@ spec wfAction(a action) bool = a == nil || (isShift(a) && 0 <= shiftTo(a) && shiftTo(a) < numStates) || (isReduce(a) && 0 <= redProd(a) && redProd(a) < numProductions) || isAccept(a)
+//@ # WF_parse (DESIGN 3.4): ranges of everything stored in the tables
+//@ spec WFparse() bool = forall2(s, t, imp(0 <= s && s < numStates && 0 <= t && t < numSymbols, wfAction(act(s, t))), trig(act(s, t)))
+//@   | && all(s, 0, numStates, act(s, 0) == nil, trig(actionTab[s]))
+//@   | && all(r, 0, numProductions, 0 <= productionsTable[r].NumSymbols && 0 <= productionsTable[r].NTType && productionsTable[r].NTType < numNTSymbols, trig(productionsTable[r]))
+//@   | && forall2(s, j, imp(0 <= s && s < numStates && 0 <= j && j < numNTSymbols, 0-1 <= gotoTab[s][j] && gotoTab[s][j] < numStates), trig(gotoTab[s][j]))
+//@ # the type number of the terminal "error" (INVALID = 0 when the grammar has none)
+//@ spec ErrT() int = ite(has(token.TokMap.idMap, "error"), token.TokMap.idMap["error"], 0)
+//@ spec WFerr() bool = 0 <= ErrT() && ErrT() < numSymbols
+//@ spec canShiftErr(s int) bool = isShift(act(s, ErrT()))
+//@ # what the recovery code relies on (DESIGN 3.5): the canRecover flag marks exactly the states that can shift the
+//@ # error symbol (established by the generator: Item.canRecover / ItemSet.CanRecover, see lr1/items contracts)
+//@ spec WFrecover() bool = all(s, 0, numStates, iff(actionTab[s].canRecover, canShiftErr(s)), trig(actionTab[s]))
+//@ # abstract view of the stack: states in range, both slices of one length
+//@ spec stackOK(s *stack) bool = s != nil && len(s.state) == len(s.attrib) && all(k, 0, len(s.state), 0 <= s.state[k] && s.state[k] < numStates)
+//@
+//@ # ---- the viable-stack interface (DESIGN 3.4) ----
+//@ # Viable(v, n): the state sequence v[0..n) is a stack the LR machine can reach. It is uninterpreted; its closure
+//@ # properties below are NOT proved here: they are properties of the automaton (a reduce always finds its handle on
+//@ # the stack and a goto entry for it), discharged per table set by the LR(1) validator and the trusted LR theorem.
+//@ # Each schema is instantiated only on the ground stack views named in `use` clauses.
+//@ specfun Viable(v seq[int], n int) bool
+//@ spec NSof(a action) int = productionsTable[redProd(a)].NumSymbols
+//@ spec NTof(a action) int = productionsTable[redProd(a)].NTType
+//@ axiomschema VInit(v seq[int]) bool = imp(v[0] == 0, Viable(v, 1))
+//@ spec vStates(v seq[int], n int) bool = imp(Viable(v, n), n >= 1 && all(i, 0, n, 0 <= v[i] && v[i] < numStates))
+//@ spec vShift(v seq[int], n int, t int) bool = imp(Viable(v, n) && isShift(act(v[n-1], t)), Viable(store(v, n, shiftTo(act(v[n-1], t))), n+1))
+//@ spec vReduce(v seq[int], n int, t int) bool = imp(Viable(v, n) && isReduce(act(v[n-1], t)),
+//@   | n > NSof(act(v[n-1], t)) && gotoTab[v[n-1-NSof(act(v[n-1], t))]][NTof(act(v[n-1], t))] >= 0
+//@   | && Viable(store(v, n-NSof(act(v[n-1], t)), gotoTab[v[n-1-NSof(act(v[n-1], t))]][NTof(act(v[n-1], t))]), n-NSof(act(v[n-1], t))+1))
+//@ spec vAccept(v seq[int], n int, t int) bool = imp(Viable(v, n) && isAccept(act(v[n-1], t)), n >= 2)
+//@ axiomschema VStates(v seq[int], n int) bool = vStates(v, n)
+//@ axiomschema VShift(v seq[int], n int, t int) bool = vShift(v, n, t)
+//@ axiomschema VReduce(v seq[int], n int, t int) bool = vReduce(v, n, t)
+//@ axiomschema VAccept(v seq[int], n int, t int) bool = vAccept(v, n, t)
+//@ # what one machine step may rely on for the stack v[0..n) and look-ahead t
+//@ spec vStep(v seq[int], n int, t int) bool = vStates(v, n) && vShift(v, n, t) && vReduce(v, n, t) && vAccept(v, n, t)
+//@ axiomschema VPrefix(v seq[int], n int, m int) bool = imp(Viable(v, n) && 1 <= m && m <= n, Viable(v, m))
+//@ axiomschema VExt(v seq[int], w seq[int], n int) bool = imp(Viable(v, n) && all(i, 0, n, v[i] == w[i]), Viable(w, n))
+//@
+//@ func newStack
+//@   prop C02 C16
+//@   ensures [fresh] result != nil && result >= old(alloc()) && len(result.state) == 0 && len(result.attrib) == 0 && arr(result.state) >= old(alloc()) && arr(result.attrib) >= old(alloc())
+//@   assigns nothing
+//@
+//@ func (*stack).reset
+//@   prop C02 C16
+//@   requires [s] s != nil
+//@   ensures [empty] len(s.state) == 0 && len(s.attrib) == 0
+//@   ensures [arr] arr(s.state) == old(arr(s.state)) && arr(s.attrib) == old(arr(s.attrib))
+//@   assigns s.state, s.attrib
+//@
+//@ func (*stack).push
+//@   prop C02 C03 C16
+//@   requires [s] s != nil && len(s.state) == len(s.attrib)
+//@   ensures [len] len(s.state) == old(len(s.state)) + 1 && len(s.attrib) == old(len(s.attrib)) + 1
+//@   ensures [below] all(k, 0, old(len(s.state)), s.state[k] == old(s.state[k]) && s.attrib[k] == old(s.attrib[k]))
+//@   ensures [top] s.state[old(len(s.state))] == state && s.attrib[old(len(s.state))] == a
+//@   assigns s.state, s.attrib, elems(s.state), elems(s.attrib)
+//@
+//@ func (*stack).top
+//@   prop C02
+//@   requires [nonempty] s != nil && len(s.state) >= 1
+//@   ensures [top] result == s.state[len(s.state)-1]
+//@   assigns nothing
+//@
+//@ func (*stack).peek
+//@   prop C07
+//@   requires [range] s != nil && 0 <= pos && pos < len(s.state)
+//@   ensures [elem] result == s.state[pos]
+//@   assigns nothing
+//@
+//@ func (*stack).topIndex
+//@   prop C07
+//@   requires [s] s != nil
+//@   ensures [idx] result == len(s.state) - 1
+//@   assigns nothing
+//@
+//@ func (*stack).popN
+//@   prop C02 C03 C16
+//@   requires [range] s != nil && len(s.state) == len(s.attrib) && 0 <= items && items <= len(s.state)
+//@   ensures [len] len(s.state) == old(len(s.state)) - items && len(s.attrib) == len(s.state)
+//@   ensures [below] all(k, 0, len(s.state), s.state[k] == old(s.state[k]) && s.attrib[k] == old(s.attrib[k]))
+//@   ensures [popped] len(result) == items && all(k, 0, items, result[k] == old(s.attrib[len(s.state)-items+k]))
+//@   ensures [alias] arr(result) == old(arr(s.attrib)) && off(result) == old(off(s.attrib)) + len(s.state)
+//@   ensures [arr] arr(s.state) == old(arr(s.state)) && off(s.state) == old(off(s.state)) && arr(s.attrib) == old(arr(s.attrib)) && off(s.attrib) == old(off(s.attrib))
+//@   assigns s.state, s.attrib
+//@
+//@ func NewParser
+//@   prop C02 C16
+//@   ensures [fresh] result != nil && result >= old(alloc()) && result.stack != nil && result.stack >= old(alloc())
+//@   ensures [init] len(result.stack.state) == 1 && len(result.stack.attrib) == 1 && result.stack.state[0] == 0 && result.stack.attrib[0] == nil
+//@   assigns nothing
+//@
+//@ func (*Parser).Reset
+//@   prop C02 C16
+//@   requires [p] p != nil && p.stack != nil
+//@   ensures [init] len(p.stack.state) == 1 && len(p.stack.attrib) == 1 && p.stack.state[0] == 0 && p.stack.attrib[0] == nil
+//@   assigns p.stack.state, p.stack.attrib, elems(p.stack.state), elems(p.stack.attrib)
+//@
+//@ # ---- the token stream (DESIGN 3.4): scanner.Scan() returns toks[k] and increments k ----
+//@ ghostvar ScanK int
+//@ specfun TokAt(k int) *token.Token
+//@ specfun EofK() int
+//@
+//@ func parser.(Scanner).Scan
+//@   trusted
+//@   ensures [tok] tok != nil && tok == TokAt(old(ScanK)) && ScanK == old(ScanK) + 1
+//@   ensures [type] 0 <= tok.Type && tok.Type < numSymbols
+//@   ensures [eof] imp(old(ScanK) >= EofK(), tok.Type == token.EOF)
+//@   assigns global(ghost.ScanK)
+//@
+//@ spec canRec(p *Parser, k int) bool = actionTab[p.stack.state[k]].canRecover
+//@ spec IdOf(i int) string = ite(i < len(token.TokMap.typeMap), token.TokMap.typeMap[i], "unknown")
+//@
+//@ func (*Parser).firstRecoveryState
+//@   prop C07
+//@   requires [stack] p != nil && stackOK(p.stack) && len(p.stack.state) >= 1
+//@   ensures [found] imp(canRecover, 0 <= recoveryState && recoveryState < len(p.stack.state) && canRec(p, recoveryState) && all(k, recoveryState+1, len(p.stack.state), !canRec(p, k)))
+//@   ensures [none] imp(!canRecover, all(k, 0, len(p.stack.state), !canRec(p, k)))
+//@   assigns nothing
+//@   loop 1
+//@     invariant [range] 0 <= recoveryState && recoveryState < len(p.stack.state)
+//@     invariant [flag] canRecover == canRec(p, recoveryState)
+//@     invariant [above] all(k, recoveryState+1, len(p.stack.state), !canRec(p, k))
+//@     decreases recoveryState
+//@
+//@ func (*Parser).popNonRecoveryStates
+//@   prop C07
+//@   requires [stack] p != nil && stackOK(p.stack) && len(p.stack.state) >= 1
+//@   ensures [stack] stackOK(p.stack) && all(k, 0, len(p.stack.state), p.stack.state[k] == old(p.stack.state[k]) && p.stack.attrib[k] == old(p.stack.attrib[k]))
+//@   ensures [recover] imp(some(k, 0, old(len(p.stack.state)), old(canRec(p, k))),
+//@     | len(p.stack.state) >= 1 && len(p.stack.state) <= old(len(p.stack.state)) && canRec(p, len(p.stack.state)-1) && all(k, len(p.stack.state), old(len(p.stack.state)), !old(canRec(p, k)))
+//@     | && len(removedAttribs) == old(len(p.stack.state)) - len(p.stack.state) && all(j, 0, len(removedAttribs), removedAttribs[j] == old(view(p.stack.attrib))[len(p.stack.state)+j]))
+//@   ensures [none] imp(!some(k, 0, old(len(p.stack.state)), old(canRec(p, k))), len(p.stack.state) == old(len(p.stack.state)) && len(removedAttribs) == 0)
+//@   ensures [fresh] len(removedAttribs) == 0 || arr(removedAttribs) >= old(alloc())
+//@   ensures [arr] arr(p.stack.state) == old(arr(p.stack.state)) && off(p.stack.state) == old(off(p.stack.state)) && arr(p.stack.attrib) == old(arr(p.stack.attrib)) && off(p.stack.attrib) == old(off(p.stack.attrib))
+//@   assigns p.stack.state, p.stack.attrib
+//@   loop 1
+//@     invariant [copy] all(j, 0, i, removedAttribs[j] == errorSymbols[j])
+//@     invariant [len] len(removedAttribs) == len(errorSymbols) && arr(removedAttribs) >= old(alloc())
+//@     invariant [below] all(k, 0, len(p.stack.state), p.stack.attrib[k] == old(p.stack.attrib[k]))
+//@     invariant [src] all(j, 0, len(errorSymbols), errorSymbols[j] == old(view(p.stack.attrib))[len(p.stack.state)+j])
+//@
+//@ spec topState(p *Parser) int = p.stack.state[len(p.stack.state)-1]
+//@ spec errOf(e error) *parseError.Error = as(e, *parseError.Error)
+//@
+//@ # CntRow(s, i): number of terminals below i that have an action in state s (defines the position of each
+//@ # expected-token name in the error's list: the list is exactly the non-nil entries of the row, in column order)
+//@ specfun CntRow(s int, i int) int
+//@ axiom [cnt0] forall(s, CntRow(s, 0) == 0, trig(CntRow(s, 0)))
+//@ axiom [cntS] forall2(s, i, imp(0 <= i && i < numSymbols, CntRow(s, i+1) == CntRow(s, i) + ite(act(s, i) != nil, 1, 0)), trig(CntRow(s, i)))
+//@ spec expectedOK(e *parseError.Error, s int) bool = len(e.ExpectedTokens) == CntRow(s, numSymbols) && all(i, 0, numSymbols, imp(act(s, i) != nil, e.ExpectedTokens[CntRow(s, i)] == IdOf(i)))
+//@
+//@ func (*Parser).newError
+//@   prop C06 C03
+//@   requires [stack] p != nil && stackOK(p.stack) && len(p.stack.state) >= 1
+//@   ensures [kind] typeis(result, *parseError.Error) && errOf(result) != nil && errOf(result) >= old(alloc())
+//@   ensures [fields] errOf(result).Err == err && errOf(result).ErrorToken == p.nextToken && errOf(result).StackTop == topState(p)
+//@   ensures [expected] expectedOK(errOf(result), topState(p))
+//@   assigns nothing
+//@   loop 1
+//@     invariant [e] e != nil && e >= old(alloc()) && e.Err == err && e.ErrorToken == p.nextToken && e.StackTop == topState(p)
+//@     invariant [arr] arr(e.ExpectedTokens) == 0 || arr(e.ExpectedTokens) >= old(alloc())
+//@     invariant [len] len(e.ExpectedTokens) == CntRow(topState(p), i)
+//@     invariant [mono] all(j, 0, i+1, 0 <= CntRow(topState(p), j) && CntRow(topState(p), j) <= CntRow(topState(p), i))
+//@     invariant [elems] all(j, 0, i, imp(act(topState(p), j) != nil, e.ExpectedTokens[CntRow(topState(p), j)] == IdOf(j)))
+//@
+//@ spec someRec(p *Parser) bool = some(k, 0, len(p.stack.state), canRec(p, k))
+//@ spec tokOK(t *token.Token) bool = t != nil && 0 <= t.Type && t.Type < numSymbols
+//@
+//@ func (*Parser).Error
+//@   prop C07
+//@   requires [wf] WFparse() && WFerr() && WFrecover()
+//@   requires [stack] p != nil && stackOK(p.stack) && len(p.stack.state) >= 1
+//@   requires [tok] tokOK(p.nextToken)
+//@   requires [viable] Viable(view(p.stack.state), len(p.stack.state))
+//@   ensures [attr] errorAttrib != nil && errorAttrib >= old(alloc()) && errorAttrib.Err == err && errorAttrib.ErrorToken == old(p.nextToken)
+//@   ensures [stack] stackOK(p.stack) && len(p.stack.state) >= 1 && tokOK(p.nextToken)
+//@   # no state on the stack can shift the error symbol: nothing is discarded or scanned and the error is returned
+//@   ensures [norec] imp(!old(someRec(p)), !recovered && len(p.stack.state) == old(len(p.stack.state)) && len(errorAttrib.ErrorSymbols) == 0
+//@     | && all(k, 0, len(p.stack.state), p.stack.state[k] == old(p.stack.state[k]) && p.stack.attrib[k] == old(p.stack.attrib[k]))
+//@     | && p.nextToken == old(p.nextToken) && ScanK == old(ScanK))
+//@   # otherwise the stack above the topmost such state is discarded and the error attribute is pushed on the state reached by shifting the error symbol
+//@   ensures [rec] imp(old(someRec(p)), len(p.stack.state) >= 2 && len(p.stack.state) <= old(len(p.stack.state)) + 1
+//@     | && canRec(p, len(p.stack.state)-2) && all(k, len(p.stack.state)-1, old(len(p.stack.state)), !old(canRec(p, k)))
+//@     | && all(k, 0, len(p.stack.state)-1, p.stack.state[k] == old(p.stack.state[k]) && p.stack.attrib[k] == old(p.stack.attrib[k]))
+//@     | && p.stack.state[len(p.stack.state)-1] == shiftTo(act(p.stack.state[len(p.stack.state)-2], ErrT()))
+//@     | && p.stack.attrib[len(p.stack.state)-1] == errorAttrib
+//@     | && len(errorAttrib.ErrorSymbols) == old(len(p.stack.state)) - (len(p.stack.state) - 1)
+//@     | && all(j, 0, len(errorAttrib.ErrorSymbols), errorAttrib.ErrorSymbols[j] == old(view(p.stack.attrib))[len(p.stack.state)-1+j]))
+//@   # input is skipped, starting with the offending token, up to the first token acceptable after the error symbol, but not past end of input
+//@   ensures [skip] imp(recovered, act(topState(p), p.nextToken.Type) != nil) && imp(!recovered && old(someRec(p)), p.nextToken.Type == token.EOF && act(topState(p), p.nextToken.Type) == nil)
+//@   ensures [skipped] imp(old(someRec(p)) && ScanK > old(ScanK), act(topState(p), old(p.nextToken).Type) == nil && all(j, old(ScanK), ScanK-1, act(topState(p), TokAt(j).Type) == nil && TokAt(j).Type != token.EOF) && old(p.nextToken).Type != token.EOF)
+//@   ensures [order] ScanK >= old(ScanK) && imp(ScanK > old(ScanK), p.nextToken == TokAt(ScanK-1)) && imp(ScanK == old(ScanK), p.nextToken == old(p.nextToken))
+//@   use_end VPrefix(old(view(p.stack.state)), old(len(p.stack.state)), len(p.stack.state)-1)
+//@   use_end VShift(old(view(p.stack.state)), len(p.stack.state)-1, ErrT())
+//@   use_end VExt(store(old(view(p.stack.state)), len(p.stack.state)-1, shiftTo(act(old(view(p.stack.state))[len(p.stack.state)-2], ErrT()))), view(p.stack.state), len(p.stack.state))
+//@   use_end VExt(old(view(p.stack.state)), view(p.stack.state), len(p.stack.state))
+//@   ensures [viable] Viable(view(p.stack.state), len(p.stack.state))
+//@   use_end VStates(view(p.stack.state), len(p.stack.state))
+//@   use_end VShift(view(p.stack.state), len(p.stack.state), p.nextToken.Type)
+//@   use_end VReduce(view(p.stack.state), len(p.stack.state), p.nextToken.Type)
+//@   use_end VAccept(view(p.stack.state), len(p.stack.state), p.nextToken.Type)
+//@   ensures [next] vStep(view(p.stack.state), len(p.stack.state), p.nextToken.Type)
+//@   assigns p.nextToken, p.stack.state, p.stack.attrib, elems(p.stack.state), elems(p.stack.attrib), global(ghost.ScanK)
+//@   loop 1
+//@     invariant [attr] errorAttrib != nil && errorAttrib >= old(alloc()) && errorAttrib.Err == err && errorAttrib.ErrorToken == old(p.nextToken)
+//@     invariant [arr] arr(errorAttrib.ExpectedTokens) >= old(alloc()) && (len(errorAttrib.ErrorSymbols) == 0 || arr(errorAttrib.ErrorSymbols) >= old(alloc()))
+//@   loop 2
+//@     invariant [order] ScanK >= old(ScanK) && imp(ScanK > old(ScanK), p.nextToken == TokAt(ScanK-1)) && imp(ScanK == old(ScanK), p.nextToken == old(p.nextToken))
+//@     invariant [tok] tokOK(p.nextToken)
+//@     invariant [rec] imp(recovered, act(topState(p), p.nextToken.Type) != nil) && imp(!recovered, act(topState(p), p.nextToken.Type) == nil)
+//@     invariant [skipped] imp(ScanK > old(ScanK), act(topState(p), old(p.nextToken).Type) == nil && old(p.nextToken).Type != token.EOF && all(j, old(ScanK), ScanK-1, act(topState(p), TokAt(j).Type) == nil && TokAt(j).Type != token.EOF))
+//@     decreases ite(ScanK < EofK(), EofK() - ScanK, 0)
+//@     decreases ite(p.nextToken.Type != token.EOF, 1, 0)
+//@
+//@ # ---- ghost call trace of the semantic actions (C03): one record per call of a ReduceFunc ----
+//@ ghostvar CallN int
+//@ ghostvar CallFn seq[int]
+//@ ghostvar CallXArr seq[int]
+//@ ghostvar CallXOff seq[int]
+//@ ghostvar CallXLen seq[int]
+//@ ghostvar CallC seq[interface{}]
+//@
+//@ func parser.prod.ReduceFunc#call(X, C)
+//@   trusted
+//@   ensures [trace] CallN == old(CallN) + 1 && CallFn[old(CallN)] == fn && CallXArr[old(CallN)] == arr(X) && CallXOff[old(CallN)] == off(X) && CallXLen[old(CallN)] == len(X) && CallC[old(CallN)] == C
+//@   ensures [earlier] all(j, 0, old(CallN), CallFn[j] == old(CallFn)[j] && CallXArr[j] == old(CallXArr)[j] && CallXOff[j] == old(CallXOff)[j] && CallXLen[j] == old(CallXLen)[j] && CallC[j] == old(CallC)[j])
+//@   assigns global(ghost.CallN), global(ghost.CallFn), global(ghost.CallXArr), global(ghost.CallXOff), global(ghost.CallXLen), global(ghost.CallC)
+//@
+//@ func parser.(action).String
+//@   trusted
+//@   assigns nothing
+//@
+//@ # the action dispatched in this iteration (read after a possible recovery, just before the type switch)
+//@ spec preAct(p *Parser) action = at(pre, act(topState(p), p.nextToken.Type))
+//@ spec preLen(p *Parser) int = at(pre, len(p.stack.state))
+//@ spec unchangedBelow(p *Parser, m int) bool = all(k, 0, m, p.stack.state[k] == at(pre, view(p.stack.state))[k] && p.stack.attrib[k] == at(pre, view(p.stack.attrib))[k])
+//@
+//@ func (*Parser).Parse
+//@   prop C02 C03 C06 C07 C16
+//@   requires [wf] WFparse() && WFerr() && WFrecover()
+//@   # C16: nothing is assumed about what earlier calls left in the parser
+//@   requires [p] p != nil && p.stack != nil
+//@   # C06/C07: a syntax error is reported for the offending token, with the expected list of the state then on top;
+//@   # when no state on the stack can shift the error symbol nothing further is scanned and the stack is untouched
+//@   ensures [err] imp(err != nil, res == nil && typeis(err, *parseError.Error) && errOf(err) != nil)
+//@   ensures [syntax-error] imp(err != nil && errOf(err).Err == nil, errOf(err).ErrorToken == at(atErr, p.nextToken) && CallN == at(atErr, CallN)
+//@     | && at(atErr, act(topState(p), p.nextToken.Type)) == nil && expectedOK(errOf(err), topState(p)) && errOf(err).StackTop == topState(p)
+//@     | && imp(!at(atErr, someRec(p)), ScanK == at(atErr, ScanK) && topState(p) == at(atErr, topState(p)) && len(p.stack.state) == at(atErr, len(p.stack.state))))
+//@   # C03: an action error stops the parse at once and is carried by the returned error
+//@   ensures [action-error] imp(err != nil && errOf(err).Err != nil, CallN == at(pre, CallN) + 1 && ScanK == at(pre, ScanK) && isReduce(preAct(p)))
+//@   snapshot pre typeswitch 1
+//@   snapshot atErr call Error
+//@   loop 1
+//@     use_entry VInit(view(p.stack.state))
+//@     use VStates(view(p.stack.state), len(p.stack.state))
+//@     use VShift(view(p.stack.state), len(p.stack.state), p.nextToken.Type)
+//@     use VReduce(view(p.stack.state), len(p.stack.state), p.nextToken.Type)
+//@     use VAccept(view(p.stack.state), len(p.stack.state), p.nextToken.Type)
+//@     invariant [stack] p.stack != nil && imp(!acc, stackOK(p.stack) && len(p.stack.state) >= 1)
+//@     invariant [viable] imp(!acc, Viable(view(p.stack.state), len(p.stack.state)))
+//@     invariant [tok] tokOK(p.nextToken)
+//@     # ---- each iteration is exactly one step of the LR machine M(T) (DESIGN 3.4) ----
+//@     step [shift] imp(isShift(preAct(p)), !acc && len(p.stack.state) == preLen(p) + 1 && unchangedBelow(p, preLen(p))
+//@       | && p.stack.state[preLen(p)] == shiftTo(preAct(p)) && p.stack.attrib[preLen(p)] == at(pre, p.nextToken)
+//@       | && ScanK == at(pre, ScanK) + 1 && p.nextToken == TokAt(at(pre, ScanK)) && CallN == at(pre, CallN))
+//@     step [reduce] imp(isReduce(preAct(p)), !acc && len(p.stack.state) == preLen(p) - NSof(preAct(p)) + 1 && unchangedBelow(p, preLen(p) - NSof(preAct(p)))
+//@       | && p.stack.state[len(p.stack.state)-1] == gotoTab[at(pre, view(p.stack.state))[preLen(p)-1-NSof(preAct(p))]][NTof(preAct(p))]
+//@       | && CallN == at(pre, CallN) + 1 && CallFn[at(pre, CallN)] == productionsTable[redProd(preAct(p))].ReduceFunc
+//@       | && CallXArr[at(pre, CallN)] == at(pre, arr(p.stack.attrib)) && CallXOff[at(pre, CallN)] == at(pre, off(p.stack.attrib)) + preLen(p) - NSof(preAct(p)) && CallXLen[at(pre, CallN)] == NSof(preAct(p))
+//@       | && CallC[at(pre, CallN)] == p.Context && ScanK == at(pre, ScanK) && p.nextToken == at(pre, p.nextToken))
+//@     step [accept] imp(isAccept(preAct(p)), acc && res == at(pre, view(p.stack.attrib))[preLen(p)-1] && CallN == at(pre, CallN) && ScanK == at(pre, ScanK))
+//@     step [kinds] isShift(preAct(p)) || isReduce(preAct(p)) || isAccept(preAct(p))
+//@     step [no-error-step] imp(head(act(topState(p), p.nextToken.Type)) != nil, preLen(p) == head(len(p.stack.state)) && at(pre, p.nextToken) == head(p.nextToken) && at(pre, ScanK) == head(ScanK) && at(pre, CallN) == head(CallN))
+//@     use_end VExt(store(at(pre, view(p.stack.state)), len(p.stack.state)-1, p.stack.state[len(p.stack.state)-1]), view(p.stack.state), len(p.stack.state))
